@@ -336,7 +336,8 @@ class Ctx:
             ovj = os.path.join(HARNESS, "overlay.json")
             json.dump({"Replace": repl}, open(ovj, "w"))
             os.makedirs(os.path.join(BUILD, "bin"), exist_ok=True)
-            outp = os.path.join(BUILD, "bin", name + ("-race" if race else ""))
+            tag = "" if REPO == "/repo" else "-" + hashlib.sha1(REPO.encode()).hexdigest()[:8]
+            outp = os.path.join(BUILD, "bin", name + ("-race" if race else "") + tag)
             env = goenv()
             if extra_env:
                 env.update(extra_env)
